@@ -48,6 +48,7 @@ class Theme:
             Theme: A New theme instance.
         """
         config = configparser.ConfigParser(interpolation=None)
+        config.optionxform = str  # type: ignore  # style names are case sensitive
         config.read_file(config_file, source=source)
         styles = {name: Style.parse(value) for name, value in config.items("styles")}
         theme = Theme(styles, inherit=inherit)
